@@ -651,21 +651,34 @@ fn analyze_match_tuple_pattern(
             // Only the top-level scrutinee (`path` empty) can be complement-narrowed; at nested
             // depths `value_type_id` is the already-resolved field type, which is the correct
             // boundary. So consult the declared type only at the top level.
-            let mut field_type_id =
-                if let Some(Type::Cycle(1)) = program.lookup_type(raw_field_type_id) {
-                    if path.is_empty() {
-                        super::narrowing::get_declared_type_for_provenance(
-                            scopes,
-                            value_provenance,
-                            program,
-                        )
-                        .unwrap_or(value_type_id)
-                    } else {
-                        value_type_id
-                    }
+            //
+            // A back-reference to the same boundary can also stand further down: in a tuple that is
+            // itself a field here (`'j = T | A[C[^]]`, again a `Cycle(1)`), or past another union
+            // (`'json = .. | Array[(Nil | Cons[^0, ^1])]`, where `^0` is a `Cycle(2)`). It names
+            // this boundary, not what it meets on the way, so it is resolved now, while the
+            // boundary is at hand.
+            let direct_cycle =
+                matches!(program.lookup_type(raw_field_type_id), Some(Type::Cycle(1)));
+            let nested_cycle = !direct_cycle && holds_cycle_to(raw_field_type_id, 1, program);
+            let mut field_type_id = if direct_cycle || nested_cycle {
+                let boundary = if path.is_empty() {
+                    super::narrowing::get_declared_type_for_provenance(
+                        scopes,
+                        value_provenance,
+                        program,
+                    )
+                    .unwrap_or(value_type_id)
                 } else {
-                    raw_field_type_id
+                    value_type_id
                 };
+                if direct_cycle {
+                    boundary
+                } else {
+                    resolve_cycles_to(raw_field_type_id, 1, boundary, program)
+                }
+            } else {
+                raw_field_type_id
+            };
 
             let mut field_path = path.clone();
             field_path.push(*actual_idx);
@@ -704,7 +717,7 @@ fn analyze_match_tuple_pattern(
             // Record the field's narrowed type for the reconstructed tuple. Recursive `Cycle(1)`
             // fields keep their original reference rather than the resolved value type, to avoid
             // materializing an infinite type.
-            if !matches!(program.lookup_type(raw_field_type_id), Some(Type::Cycle(1))) {
+            if !direct_cycle && !nested_cycle {
                 narrowed_fields[*actual_idx].1 = field_narrowed_type_id;
             }
 
@@ -1101,6 +1114,82 @@ fn analyze_partial_pattern(
     };
 
     Ok((binding_sets, narrowed_type_id))
+}
+
+/// Whether a type, standing `level` boundaries below a union, holds a back-reference to that
+/// union: a `Cycle(level)` in a field of a tuple, or a `Cycle(level + 1)` one union or function
+/// type further in, and so on.
+fn holds_cycle_to(type_id: usize, level: usize, program: &Program) -> bool {
+    match program.lookup_type(type_id) {
+        Some(Type::Cycle(depth)) => *depth == level,
+        Some(Type::Tuple(tuple_id)) => program.lookup_tuple(*tuple_id).is_some_and(|info| {
+            info.fields
+                .iter()
+                .any(|(_, field)| holds_cycle_to(*field, level, program))
+        }),
+        Some(Type::Union(variants)) => variants
+            .iter()
+            .any(|variant| holds_cycle_to(*variant, level + 1, program)),
+        Some(Type::Callable {
+            parameter,
+            result,
+            receive,
+        }) => [parameter, result, receive]
+            .iter()
+            .any(|part| holds_cycle_to(**part, level + 1, program)),
+        _ => false,
+    }
+}
+
+/// The type with every such back-reference replaced by the union it stands for.
+fn resolve_cycles_to(
+    type_id: usize,
+    level: usize,
+    boundary: usize,
+    program: &mut Program,
+) -> usize {
+    match program.lookup_type(type_id).cloned() {
+        Some(Type::Cycle(depth)) if depth == level => boundary,
+        Some(Type::Tuple(tuple_id)) => {
+            let Some(info) = program.lookup_tuple(tuple_id).cloned() else {
+                return type_id;
+            };
+            let fields = info
+                .fields
+                .iter()
+                .map(|(name, field)| {
+                    (
+                        name.clone(),
+                        resolve_cycles_to(*field, level, boundary, program),
+                    )
+                })
+                .collect();
+            let resolved_tuple_id = program.register_tuple(info.name, fields);
+            program.register_type(Type::Tuple(resolved_tuple_id))
+        }
+        Some(Type::Union(variants)) => {
+            let variants = variants
+                .iter()
+                .map(|variant| resolve_cycles_to(*variant, level + 1, boundary, program))
+                .collect();
+            program.register_type(Type::Union(variants))
+        }
+        Some(Type::Callable {
+            parameter,
+            result,
+            receive,
+        }) => {
+            let parameter = resolve_cycles_to(parameter, level + 1, boundary, program);
+            let result = resolve_cycles_to(result, level + 1, boundary, program);
+            let receive = resolve_cycles_to(receive, level + 1, boundary, program);
+            program.register_type(Type::Callable {
+                parameter,
+                result,
+                receive,
+            })
+        }
+        _ => type_id,
+    }
 }
 
 fn analyze_star_pattern(
